@@ -717,3 +717,61 @@ func (c *Ctx) bigIntChunks() {
 		c.check(okv, R, name+": a set bit of a 1-bit signed integer is -1", f.Pos(), "return -1 under bitLen == 1 and the bit set", name+" does not return -1 for a 1-bit integer whose bit is set (two's complement of width one has the values 0 and -1; WriteInt/WriteBigInt write -1 as a set bit)")
 	}
 }
+
+// magicRadix: Magic.ValidateTag parses the digits of a "$..." / "#..." tag and compares them with
+// as many bits as the digits stand for: a binary digit is one bit (radix 2, width len), a hex
+// digit four (radix 16, width 4*len). Radix and bits-per-digit must fit: radix == 2^(bits per digit).
+func (c *Ctx) magicRadix() {
+	const R = "E3a.magic-radix"
+	f := c.mustFn(R, "tlb", "Magic.ValidateTag")
+	if f == nil {
+		return
+	}
+	n := 0
+	for _, pc := range callsTo(f, "strconv.ParseUint") {
+		base, ok := constInt(pc.Call.Args[1])
+		if !ok {
+			continue
+		}
+		for _, rc := range callsTo(f, bocPath+".Cell.ReadUint") {
+			if !pc.Block().Dominates(rc.Block()) {
+				continue
+			}
+			// nearest: no other ParseUint in between (the two tag forms are separate branches)
+			other := false
+			for _, pc2 := range callsTo(f, "strconv.ParseUint") {
+				if pc2 != pc && pc.Block().Dominates(pc2.Block()) && pc2.Block().Dominates(rc.Block()) {
+					other = true
+				}
+			}
+			if other {
+				continue
+			}
+			per := int64(0)
+			w := stripConv(rc.Call.Args[1])
+			if cl := callOf(w); cl != nil {
+				if bi, ok := cl.Call.Value.(*ssa.Builtin); ok && bi.Name() == "len" {
+					per = 1
+				}
+			}
+			if bo, ok := w.(*ssa.BinOp); ok && bo.Op == token.MUL {
+				if k, ok := constInt(bo.Y); ok {
+					per = k
+				}
+				if k, ok := constInt(bo.X); ok {
+					per = k
+				}
+			}
+			if bo, ok := w.(*ssa.BinOp); ok && bo.Op == token.SHL {
+				if k, ok := constInt(bo.Y); ok {
+					per = 1 << uint(k)
+				}
+			}
+			n++
+			c.check(per > 0 && per < 7 && base == 1<<uint(per), R, fmt.Sprintf("radix %d digits are compared with %d bit(s) each", base, per), pc.Pos(), "radix == 2^(bits per digit)", fmt.Sprintf("Magic.ValidateTag parses the tag digits in radix %d but reads %d bit(s) per digit from the cell: the value compared is not the one the tag spells", base, per))
+		}
+	}
+	if n < 2 {
+		c.bad(R, "both tag forms found", f.Pos(), fmt.Sprintf("only %d (ParseUint, ReadUint) pairs found in Magic.ValidateTag; the binary and the hexadecimal form were confirmed", n))
+	}
+}
